@@ -7,6 +7,7 @@ mod lemmas;
 mod c01;
 mod c03;
 pub(crate) mod c04;
+mod c04b;
 mod c05;
 mod c06;
 mod c07;
